@@ -356,6 +356,24 @@ def run_frame_scenario(p, wd):
             gen.write_plotfile(pth, pm)
             mono.append(pth)
         cut_m2 = cut_copy(mono[1], "plt_mono_cut")
+        # ... and with two FABs per binary file, so that ONE is left after the cut (a single result is not a length mismatch for
+        # numpy: it is broadcast)
+        mono2 = []
+        for tag, nms in (("n1", ["density", "temp"]), ("n2", ["alpha"])):
+            pm = gen.make_pf(ndims=3, names=nms, n0=pf.n0, geo_lo=pf.geo_lo, dx0=pf.dx0, levels=[pf.levels[0][:4]] if len(pf.levels[0]) >= 4 else pf.levels[:1],
+                             nfiles=2, layout="monotone", seed=p["seed"] + 12, time=pf.time)
+            pth = os.path.join(work, "plt_mono2_" + tag)
+            gen.write_plotfile(pth, pm)
+            mono2.append(pth)
+        cut_n2, cut_n1 = cut_copy(mono2[1], "plt_mono2_cut_b"), cut_copy(mono2[0], "plt_mono2_cut_a")
+
+        def _chef_cut(a, serial):
+            from amr_kitchen.chef.chef import Chef
+            rec = os.path.join(work, "user_recipe.py")
+            if not os.path.exists(rec):
+                with open(rec, "w") as fh:
+                    fh.write(RECIPE)
+            Chef(plotfile=a, recipe=rec, outfile=os.path.join(work, "o_cut_chef"), serial=serial, kept_fields=None).cook()
 
         def _combine_cut(a, b):
             from amr_kitchen import PlotfileCooker
@@ -366,6 +384,11 @@ def run_frame_scenario(p, wd):
             from amr_kitchen.colander.colander import Colander
             Colander(plotfile=a, output=os.path.join(work, "o_cut_colander"), variables=["temp"]).strain()
         cut_cases = []
+        if cut_n2:
+            cut_cases.append(("combine (two FABs per file, one left), second input cut at a FAB boundary", lambda: _combine_cut(mono2[0], cut_n2)))
+        if cut_n1:
+            cut_cases.append(("chef serial (two FABs per file, one left), input cut at a FAB boundary", lambda: _chef_cut(cut_n1, True)))
+            cut_cases.append(("chef parallel (two FABs per file, one left), input cut at a FAB boundary", lambda: _chef_cut(cut_n1, False)))
         if cut_m2:
             cut_cases.append(("combine (boxes in the same files in box order), second input cut at a FAB boundary", lambda: _combine_cut(mono[0], cut_m2)))
         if cut2:
@@ -383,7 +406,7 @@ def run_frame_scenario(p, wd):
                     fails.append({"what": "failing request exited with status 0", "call": desc_, "detail": ""})
             except BaseException:      # noqa
                 pass
-            for o_ in ("o_cut_combine", "o_cut_colander"):
+            for o_ in ("o_cut_combine", "o_cut_colander", "o_cut_chef"):
                 shutil.rmtree(os.path.join(work, o_), ignore_errors=True)
         # ---- failing requests must raise: unknown field, unreadable input
         from amr_kitchen.mandoline.mandoline import Mandoline
